@@ -95,7 +95,7 @@ class Sched:
                         self.wait_turn(name)
                         break
                 else:
-                    if fn.endswith(POINT_FILES):
+                    if fn.endswith(POINT_FILES) and nm not in ("_is_field", "<genexpr>", "<listcomp>", "<dictcomp>", "__name__"):
                         self.wait_turn(name)
             return None
         return tr
@@ -215,7 +215,7 @@ def jobsets():
         only_config = pd.DataFrame({"a": [-3], "b": [5]})       # violates the Config check (a >= -1) only
         good = pd.DataFrame({"a": [1], "b": [2]})
         return {"schemas": [], "jobs": {"A": lambda: M.validate(only_config), "B": lambda: M.validate(good)},
-                "region": None, "name": "model-first-use-config-check"}
+                "region": None, "name": "model-first-use-config-check", "bound": 26}
     sets += [pandas_shared, pandas_distinct, pandas_regex_shared, pandas_three, pandas_shared_frame_coerce, model_first_use]
     try:
         import polars as pl
@@ -401,7 +401,7 @@ def run_global_watch(rep):
                                        f"{str(solo[name])[:120]}")
 
 
-def schedules_for(names, rng, n_random, exhaustive_len):
+def schedules_for(names, rng, n_random, exhaustive_len, bound=13):
     names = sorted(names)
     out = []
     # solo-like sequential orders first
@@ -413,8 +413,8 @@ def schedules_for(names, rng, n_random, exhaustive_len):
     # preemption-bounded: one thread runs i gates, another j gates, then the first runs on (two context switches)
     if len(names) == 2:
         for a, b in ((names[0], names[1]), (names[1], names[0])):
-            for i in range(0, 13):
-                for j in range(1, 13):
+            for i in range(0, bound):
+                for j in range(1, bound):
                     out.append([a] * i + [b] * j + [a] * 60)
     for _ in range(n_random):
         k = rng.randint(4, 24)
@@ -431,7 +431,7 @@ def run_jobset(rep, make, rng, n_random, exhaustive_len):
     for n in names:
         fresh = make()
         solo[n] = outcome_of(fresh["jobs"][n])
-    for sched in schedules_for(names, rng, n_random, exhaustive_len):
+    for sched in schedules_for(names, rng, n_random, exhaustive_len, bound=info.get("bound", 13)):
         cur = make()
         fps = [c05.fp(s) for s in cur["schemas"]]
         cfg0 = (get_config_context(validation_depth_default=None), copy.copy(get_config_global()))
